@@ -38,7 +38,7 @@ def warm(prop):
 RATES = [20, 50, 75, 100, 128, 200, 250, 500]
 GCF_RATES = [20, 50, 75, 100, 128, 200, 250, 500]
 PERMS = [list(p) for p in itertools.permutations(["N", "E", "Z"])]
-MUST_RAISE = ("header_count", "dup_component", "missing_component", "garbage", "empty", "lost_write")
+MUST_RAISE = ("header_count", "dup_component", "missing_component", "extra_component", "garbage", "empty", "lost_write")
 MAY_RAISE = ("torn", "drop", "flip", "eio_read", "eol_strip_final")
 
 
@@ -100,6 +100,8 @@ def draw_fault(rng, rec):
         kinds += ["move_token", "move_token"]
     elif fmt not in F.TEXT:
         kinds = [k for k in kinds if k != "header_count"]       # (binary formats: obspy's business)
+    if fmt in ("mseed1", "mseed3", "sac_le", "sac_be"):
+        kinds += ["extra_component", "extra_component"]     # a fourth trace / file: one direction recorded twice
     if fmt in ("minishark",):
         kinds = [k for k in kinds if k not in ("dup_component", "missing_component")]
     kind = rng.choice(kinds)
@@ -245,7 +247,7 @@ def apply_fault(ctx, f, rec, files, rng_seed):
             # PEER does not require equal lengths; a header that announces MORE samples than present must raise,
             return "must_raise"
         return "must_raise"
-    if kind in ("dup_component", "missing_component"):
+    if kind in ("dup_component", "missing_component", "extra_component"):
         return None        # handled at encode time (see build_disk)
     if kind == "garbage":
         which = g.choice(["random", "text", "json"])
@@ -277,7 +279,9 @@ def build_disk(ctx, st, world, faults):
         expect_class = None
         # component-level faults are realised by the recorder writing the wrong channel set
         for f in fl:
-            if f["kind"] in ("dup_component", "missing_component") and rec["fmt"] not in ("minishark",):
+            if f["kind"] == "extra_component" and rec["fmt"] not in ("mseed1", "mseed3", "sac_le", "sac_be"):
+                continue
+            if f["kind"] in ("dup_component", "missing_component", "extra_component") and rec["fmt"] not in ("minishark",):
                 expect_class = "must_raise"
                 ctx.fault(f["kind"])
                 spec["_comp_fault"] = (f["kind"], f["comp"])
@@ -346,12 +350,17 @@ def encode_with_comp_fault(spec):
     from obspy import Trace, Stream
     new = []
     for ch, d, delta in trs:
-        if ch[-1] == comp:
+        if ch[-1] == comp and kind != "extra_component":
             if kind == "missing_component":
                 continue
             ch = ch[:-1] + other
         t = F._trace(ch, d.astype(np.float32 if fmt.startswith("sac") else np.int32), round(1.0 / delta), sp)
         new.append(t)
+        if ch[-1] == comp and kind == "extra_component":
+            # the same direction once more (another band code, other samples): four traces, every direction present
+            ch2 = ("E" if ch[0] != "E" else "H") + ch[1:]
+            d2 = (d // 2 + 1) if not fmt.startswith("sac") else (d * 0.5 + 1)
+            new.append(F._trace(ch2, d2.astype(np.float32 if fmt.startswith("sac") else np.int32), round(1.0 / delta), sp))
     with warnings.catch_warnings():
         warnings.simplefilter("ignore")
         if fmt in ("mseed1",):
